@@ -16,7 +16,7 @@
 //@ type src/config.rs HunkHeaderIncludeLineNumber
 //@ type src/config.rs HunkHeaderIncludeCodeFragment
 //@ type src/config.rs Config keep=color_only,hyperlinks,file_style,commit_style,minus_style,zero_style,plus_style,classic_grep_header_style,hunk_header_style,tab_cfg,line_buffer_size,line_numbers$CONFIG_EXTRA
-//@ type src/paint.rs Painter keep=minus_lines,plus_lines,writer,output_buffer,line_numbers_data$PAINTER_EXTRA
+//@ type src/paint.rs Painter keep=minus_lines,plus_lines,writer,output_buffer,line_numbers_data,merge_conflict_lines,merge_conflict_commit_names$PAINTER_EXTRA
 //@ type src/delta.rs StateMachine
 //@ include prelude/render2.rs
 //@ include prelude/sm_inv.rs
